@@ -61,6 +61,20 @@ def cells(tier):
                       may_fail=False, sort_objects=True, mids=[' 20', '3 ', chr(10) + '100' + chr(10)], tag='padded-ids'))
         out.append(mk(PID, pairs[1], True, 'file', perm=perm, T=T, may_fail=False, mids=['+12', '7'], tag='signed-id',
                       same_basename=True))
+    # IDs beyond 2**53 / 2**64 that differ in the last digit only; the two messages name the same story, so the
+    # result depends on their order
+    for a, b in (('9007199254740993', '9007199254740992'), ('18446744073709551617', '18446744073709551616')):
+        for perm in ([0, 1, 2], [2, 1, 0], [1, 0, 2]):
+            out.append(mk(PID, pairs[1], False, 'string', perm=perm, T=T, may_fail=False, mids=[a, b], refs=[0, 0],
+                          sort_objects=True, tag='huge-ids'))
+    # many documents (more than any internal batch size): descending, interleaved and rotated supply orders
+    many = 70
+    mm = [str(5 + 7 * j) for j in range(many)]
+    for name, perm in (('descending', list(range(many, -1, -1))),
+                       ('interleaved', list(range(0, many + 1, 2)) + list(range(1, many + 1, 2))),
+                       ('rotated', list(range(40, many + 1)) + list(range(0, 40)))):
+        out.append(mk(PID, ('roMetadataReplace',) * many, True, 'string' if name != 'rotated' else 's3', perm=perm, T=T,
+                      may_fail=False, mids=mm, tag='70-messages-' + name))
     # a roReplace is ordered by its message ID like everything else
     for perm in ([3, 2, 1, 0], [1, 3, 0, 2], [0, 1, 2, 3]):
         out.append(mk(PID, ('roMetadataReplace', 'roReplace', 'roMetadataReplace'), True, 'string', perm=perm,
